@@ -265,9 +265,11 @@ def run_engine(prop, tier, seed, extra_args=None):
                 sys.stdout.write(out)
                 print("INFRA: harness crashed (status %d) in configuration %s and the crash did not reproduce from the published case" % (p.returncode, cfg))
                 infra = True
-        elif p.returncode == 2 and prop == "C01" and "HANG property=" in out and confirm_hang(prop, cfg, out):
-            # C01: "no invocation of any waker ever handed out ... deadlocks". A case on
-            # which the library never returns, reproduced in isolation, is that violation.
+        elif p.returncode == 2 and prop in ("C01", "C11", "C12") and "HANG property=" in out and confirm_hang(prop, cfg, out):
+            # C01: "no invocation of any waker ever handed out ... deadlocks"; C11 / C12: "across any
+            # interleaving of insert, remove, reserve, extend, polling and child wake-ups" the group
+            # yields every output. A case on which a call into the library never returns, reproduced
+            # in isolation, is that violation.
             path = [l.split("replay=", 1)[1].strip() for l in out.splitlines() if l.startswith("HANG property=")][0]
             violations += 1
             print("  a generated case made the library block forever (a poll, a drop or a waker invocation never returned); "
@@ -452,12 +454,26 @@ def confirm_hang(prop, b, out):
     paths = [l.split("replay=", 1)[1].strip() for l in out.splitlines() if l.startswith("HANG property=")]
     if not paths or not os.path.exists(paths[0]):
         return False
+    e = env()
+    e["FCV_PHASE_MARK"] = "1"
+    logp = paths[0] + ".confirm.log"
+    with open(logp, "w") as lf:
+        p = subprocess.Popen([binary(b), "replay", "--file", paths[0], "--prop", prop, "--repeat", "200"], env=e, stdout=lf, stderr=subprocess.DEVNULL)
+        try:
+            p.wait(timeout=int(os.environ.get("FCV_HANG_CONFIRM_SECS", "60")))
+            return False
+        except subprocess.TimeoutExpired:
+            p.kill()
+            p.wait()
+    # blocked again. Only a call into the library that does not return counts: if the
+    # library calls of the case were over and the harness's own oracles were still
+    # running, the case is merely expensive for the harness (infrastructure, exit 2)
     try:
-        subprocess.run([binary(b), "replay", "--file", paths[0], "--prop", prop], env=env(), stdout=subprocess.DEVNULL,
-                       stderr=subprocess.DEVNULL, timeout=int(os.environ.get("FCV_HANG_CONFIRM_SECS", "60")))
-    except subprocess.TimeoutExpired:
-        return True
-    return False
+        out2 = open(logp).read()
+    except Exception:
+        out2 = ""
+    marks = [l for l in out2.splitlines() if l.startswith("PHASE ")]
+    return bool(marks) and marks[-1] == "PHASE case-begin"
 
 
 def cfg_label(b):
